@@ -331,9 +331,13 @@ def add_fast_sinks(spec, rng: random.Random, max_levels: int = 2) -> int:
     9-27x as often as the supervisor: more than 10 slots of one kind per partition in the uniform (scan) execution paths."""
     src = max(range(len(spec["nodes"])), key=lambda i: spec["nodes"][i]["rate"])
     added = 0
-    for j in range(min(max_levels, rng.choice([1, 2, 2]))):
+    sup_rate = spec["nodes"][spec["sup"]]["rate"]
+    cap = sup_rate * rng.choice([11.5, 12.5, 13.5])  # just beyond 10 slots per partition; more only makes the compiled programs huge
+    for j in range(max_levels):
         i = len(spec["nodes"])
-        rate = round(spec["nodes"][src]["rate"] * rng.choice([2, 3, 3]), 3)
+        if spec["nodes"][src]["rate"] >= cap - 1e-9:
+            break
+        rate = round(min(spec["nodes"][src]["rate"] * 3, cap), 3)
         per = 1.0 / rate
         d = rng.choice([["det", _r6(per * 0.2)], ["mix", [_r6(per * 0.1), _r6(per * 0.9)], [0.7, 0.3]], ["det", 0.0]])
         spec["nodes"].append(dict(name=f"n{i}", rate=rate, dist=d, delay=_r6(min(dist_max(d), per)), sched=rng.choice(["F", "P"]), advance=False, jit=True))
